@@ -60,6 +60,7 @@ struct Stats
   std::vector<std::string> samples;
   std::vector<FailRec> fails;
   bool exhaustive = false;
+  double wall_s   = 0;
 };
 
 inline std::string jesc(const std::string & s)
@@ -171,7 +172,7 @@ inline void write_report(const std::string & path, const std::vector<std::pair<c
     first = false;
     f << "\n\"" << jesc(c->name) << "\":{\"evals\":" << s->evals << ",\"discarded\":" << s->discarded
       << ",\"nontrivial\":" << s->nontrivial << ",\"distinct_nontrivial\":" << s->hashes.size()
-      << ",\"exhaustive\":" << (s->exhaustive ? "true" : "false") << ",\"rule\":\"" << jesc(c->rule) << "\"";
+      << ",\"wall_s\":" << jnum(s->wall_s) << ",\"exhaustive\":" << (s->exhaustive ? "true" : "false") << ",\"rule\":\"" << jesc(c->rule) << "\"";
     auto dump = [&](const char * k, const std::map<std::string, uint64_t> & m) {
       f << ",\"" << k << "\":{";
       bool ff = true;
